@@ -213,7 +213,9 @@ def rule_construction(rep, pdb):
                     if q_.get("k") == "Tuple" and len(q_.get("ps", [])) == 3 and q_["ps"][1].get("k") == "Bind":
                         b_ = strip(cl["body"])
                         key_is_col = b_.get("k") == "Local" and b_.get("v") == q_["ps"][1]["v"]
-                oks = key_is_col and _pos(sorts[0]) < _pos(lp)
+                # the sort runs on every path: skipping it "when the list is already ordered" makes the result depend on that test being right
+                uncond = not [a_ for a_ in ancestors(sorts[0]) if a_.get("k") in ("If", "Match", "For", "While", "Loop", "Closure")]
+                oks = key_is_col and _pos(sorts[0]) < _pos(lp) and uncond
             rep.add("lengths/from_triplets-sort", "triplets are sorted by column (a *_by_key sort on component .1; stability is not needed for duplicate-free input) before they are drained", oks, sorts[0] if sorts else fn["body"], "")
         # the triplets are reordered, never filtered: every entry handed in is stored
         TR = P(2)
